@@ -12,15 +12,24 @@ func main() { hl.Main("C45", run) }
 
 func genScript(r *rand.Rand, big bool) ([]watchlib.Op, string) {
 	var sc []watchlib.Op
-	kind := []string{"close-during-storm", "double-close", "signal-during-storm", "close-then-connect"}[r.Intn(4)]
+	kind := []string{"close-during-storm", "double-close", "signal-during-storm", "close-then-connect", "close-with-prober", "double-close"}[r.Intn(6)]
 	if r.Intn(3) != 0 {
 		// let the first compile finish and a few clients settle
 		sc = append(sc, watchlib.Op{Op: "sleep", Ms: 150 + r.Intn(250)})
 	}
 	next := 0
-	for i, k := 0, r.Intn(3); i < k; i++ {
+	pre := r.Intn(3)
+	if kind == "close-with-prober" && pre == 0 {
+		pre = 1 // a settled client whose exit shows that close() has cancelled the context
+	}
+	for i := 0; i < pre; i++ {
 		sc = append(sc, watchlib.Op{Op: "connect", ID: next})
 		next++
+	}
+	if kind == "close-with-prober" {
+		// requests over one kept-alive connection keep reaching handleWatch after the listener is closed
+		sc = append(sc, watchlib.Op{Op: "probe", ID: 1000, N: 150 + r.Intn(200), Ms: r.Intn(120)},
+			watchlib.Op{Op: "usleep", Ms: 500 + r.Intn(1500)})
 	}
 	n := 3 + r.Intn(6)
 	if big {
@@ -30,7 +39,7 @@ func genScript(r *rand.Rand, big bool) ([]watchlib.Op, string) {
 	for i := 0; i <= n; i++ {
 		if i == closeAt {
 			switch kind {
-			case "close-during-storm", "close-then-connect":
+			case "close-during-storm", "close-then-connect", "close-with-prober":
 				sc = append(sc, watchlib.Op{Op: "close"})
 			case "double-close":
 				sc = append(sc, watchlib.Op{Op: "close"}, watchlib.Op{Op: "usleep", Ms: r.Intn(400)}, watchlib.Op{Op: "close"})
@@ -67,6 +76,7 @@ func emit(c *hl.Ctx, seed int64, perturb bool, sc []watchlib.Op, kind string) er
 	var scj []any
 	b, _ := json.Marshal(sc)
 	json.Unmarshal(b, &scj)
+	delete(out, "hist")
 	c.Emit(map[string]any{"k": "storm", "sub": kind, "in": map[string]any{"script": scj, "pseed": seed, "perturb": perturb}, "out": out})
 	return nil
 }
@@ -92,6 +102,10 @@ func run(c *hl.Ctx) error {
 			return err
 		}
 		c.Count("storm:" + kind)
+		if watchlib.FailedSessions() >= 3 {
+			c.Count("stopped-early")
+			break
+		}
 	}
 	return nil
 }
